@@ -99,6 +99,9 @@ def programs():
         val("addrof", "&%s" % W)
         val("index0", "%s[0]" % W)
         val("index_T", "%s[e.t_int]" % W, [("T", "int")])
+        # (a boolean hint is accepted as an index - p[hint], arr[hint] compile - and the element designated is an ordinary
+        #  wrapped object: the property's clause about hints speaks of the hint itself, which still reaches no verifier;
+        #  not among the forms: recorded as note N7 in DESIGN.md)
         val("arrow_a", "%s->a" % W)
         val("dot_a", "%s.a" % W)
         val("preinc", "++%s" % W)
